@@ -275,7 +275,14 @@ def check_C13(tier, seed):
     import itertools
     t0 = time.time()
     res = Result("C13")
-    known = lib.load_findings("C13")
+    # recorded deviations of an encoder from the STANDARD say nothing about two builds agreeing with each other:
+    # "the octets differ" is never excused here
+    known = []
+    for f in lib.load_findings("C13"):
+        alts = f["match"] if isinstance(f["match"], list) else [f["match"]]
+        alts = [a for a in alts if not (a.get("a") == "Encode" and "bytes-differ" in (a.get("reason") if isinstance(a.get("reason"), list) else [a.get("reason")]))]
+        if alts:
+            known.append(dict(f, match=alts))
     opts = ["-fwide-types", "-fcompound-names", "-findirect-choice", "-fno-include-deps", "-fincludes-quoted"]
     if tier == "thorough":
         sets = [list(c) for r in range(1, len(opts) + 1) for c in itertools.combinations(opts, r)]
